@@ -1,5 +1,5 @@
 """C18 -- predictions are per-sample functions of the fitted model."""
-META = dict(level="proof", trusted_base=["z3 5.1", "own normal-form prover", "FX term interpreter", "softmax contract",
+META = dict(level="proof", trusted_base=["z3 5.1", "own normal-form prover", "FX term interpreter", "installed sklearn softmax run on exact reals under its own contract",
                                          "pairwise_kernels is row-local (scikit-learn contract)"])
 
 
@@ -14,6 +14,8 @@ def tasks(tier, seed):
     for c in cfg:
         t.append(("contracts.infer_local", "task", c + (seed,), to, f"{c[0]}[n={c[1]},d={c[2]},K={c[3]},h={c[4]},cuts={c[5]}]"))
     t.append(("contracts.tree_predict", "task", (tier, seed), to, "Tree.predict"))
+    from contracts import external_deps
+    t += external_deps.softmax_tasks(tier, seed)
     return t
 
 
@@ -29,6 +31,6 @@ def extra(led, tier, seed):
     from contracts import infer_local
     led.extend(infer_local.native_locality(seed, tier))
     led.assume("A1", "A2", "A3", "A4", "A8",
-               "A5: softmax is row-wise (contract stub); check_array returns the validated array; np.argmax(axis=1) is row-wise",
+               "A5 (discharged for softmax): the installed sklearn softmax is row-wise -- it equals the row-wise stub for every row ordering (contracts/external_deps.py); assumed: check_array returns the validated array; np.argmax(axis=1) is row-wise",
                "A5: sklearn pairwise_kernels(X, Y)[i] depends only on X[i] and Y; a callable base_kernel is assumed row-local (user code)",
                "training-set predictions equal labels_: labels_ = _infer(X).argmax(1) (C03 fit contract), predict = argmax(_infer(X, retain=False)), and _infer is independent of the retain flag and of retained state (proved here)")
